@@ -507,12 +507,12 @@ func c20PublicAverage(c *h.Ctx) {
 	src := &c20src{}
 	atomic.StoreUint64(&src.n, 10)
 	m := kxps.NewKrps(nil, src)
+	lo0 := time.Now() // before Start: the sampler goroutine it launches may take the anchor
 	if err := m.Start(); err != nil {
 		c.Hold(false, "average.public", "krps.Start", err.Error(), "nil")
 		return
 	}
 	defer m.Close()
-	lo0 := time.Now()
 	a0 := m.Average() // first non-zero observation: anchors, reports 0
 	hi0 := time.Now()
 	time.Sleep(40 * time.Millisecond)
@@ -553,6 +553,7 @@ func c20DualSource(c *h.Ctx) {
 	src := &c20dual{req: 7, bytes: 1000}
 	kr := kxps.NewKrps(nil, src)
 	kb := kxps.NewKbps(nil, src)
+	lo0 := time.Now() // before Start: the sampler goroutines it launches may take the anchors
 	if err := kr.Start(); err != nil {
 		c.Hold(false, "average.public", "krps.Start", err.Error(), "nil")
 		return
@@ -563,7 +564,6 @@ func c20DualSource(c *h.Ctx) {
 		return
 	}
 	defer kb.Close()
-	lo0 := time.Now()
 	r0, b0 := kr.Average(), kb.Average()
 	hi0 := time.Now()
 	time.Sleep(50 * time.Millisecond)
